@@ -30,6 +30,7 @@ type Contract struct {
 	NoInline bool
 	Entry    []*EntryGhost
 	Exit     []*EntryGhost
+	Assumed  string
 }
 
 type GhostParam struct {
@@ -102,7 +103,7 @@ var clauseKeywords = map[string]bool{
 	"loop": true, "modifies": true, "ghost": true, "safety": true, "pure": true,
 	"pred": true, "ghostvar": true, "at": true, "trusted": true, "may_panic": true,
 	"let": true, "specfun": true, "axiom": true, "noinline": true, "end": true,
-	"entry": true, "modset": true, "exit": true, "global": true,
+	"entry": true, "modset": true, "exit": true, "global": true, "assumed": true,
 }
 
 // EntryGhost is a ghost assignment executed when the function is entered.
@@ -300,6 +301,13 @@ func parseContracts(path string) (*Contracts, error) {
 				cur.MayPanic = true
 			case "trusted":
 				cur.Trusted = r.text
+			case "assumed":
+				// in-package contract used at call sites but not verified against
+				// its body (outside the generator's reach); listed as an assumption
+				cur.Assumed = r.text
+				if cur.Assumed == "" {
+					cur.Assumed = "not verified"
+				}
 			case "modifies":
 				cur.HasModifies = true
 				for _, t := range strings.Split(r.text, ",") {
